@@ -53,7 +53,7 @@ CLAIMS = {
               "datastore / memcache behaviour (put-then-get, GetMulti order), the byte-level round trip read(newBlob(b)) == b as one lemma (the two halves are proved separately against named windows), concurrency between client and agent calls.", "DESIGN.md section 4 C19"),
  "C18": claim("Full functional proof of longest-prefix selection for all backend sets, prefix lists and paths (nested loop invariants with existential witness; ties unranked as in the property); LookupBackend asks for the user's own backends first, falls back to shared ones only when the user has no match, requires the matched backend's tracker to be younger than 5 minutes and never falls back from a dead match; the handler answers 404 on lookup failure.",
               "datastore query semantics and entity well-formedness (assumed: non-nil entities with non-empty ids), the clock.", "DESIGN.md section 4 C18"),
- "C20": claim("Proof over all health-check histories (ghost consecutive-failure counter): the agent exits exactly when the count reaches max(1, threshold) and a success resets it; start-up returns only after a passing check; a check passes iff the probe succeeded with status 200; a pending-list call happens only after the polling context was seen live, and workers do not receive that context.",
+ "C20": claim("Proof over all health-check histories (ghost consecutive-failure counter): the agent exits exactly when the count reaches max(1, threshold) and a success resets it; start-up returns only after a passing check; a check passes iff the probe succeeded with status 200; a pending-list call happens only after the polling context was seen live, and workers do not receive that context; main runs the start-up check before it starts the periodic checks or the polling worker, the worker polls with the cancellable context, and on a shutdown signal (announced exactly when a SIGINT/SIGTERM was received) that context is cancelled before the grace period begins.",
               "signal timing relative to request phases, whether in-flight requests finish within the grace period, real time, process exit status (schedules / OS).", "DESIGN.md section 4 C20"),
 }
 
